@@ -226,12 +226,14 @@ class CtrlHarness(Module):
         self.clk_freq = cfg.pop("clk_freq", 100e6)
         s = mk_settings(**cfg)
         self.settings = s
+        from litedram.common import tXXDController, tFAWController
         with capture_locals(BankMachine.__init__, _misc.timeline, Multiplexer.__init__, Refresher.__init__,
-                            _Steerer.__init__) as cap:
+                            _Steerer.__init__, tXXDController.__init__, tFAWController.__init__) as cap:
             self.submodules.ctrl = ctrl = LiteDRAMController(s.phy, s.geom, s.timing, self.clk_freq, s)
         self.bms = [cap.of(bm) for bm in ctrl.multiplexer_bank_machines] if hasattr(ctrl, "multiplexer_bank_machines") \
             else cap.calls["BankMachine.__init__"]
         self.timelines = cap.calls.get("timeline", [])
+        self.cap_calls = cap.calls
         self.ML = cap.of(ctrl.multiplexer)
         self.RL = cap.of(ctrl.refresher)
         self.SL = cap.calls["_Steerer.__init__"][0]
@@ -344,7 +346,7 @@ def ctrl_contract(cfg):
     zcnt = tl[1]["counter"] if len(tl) > 1 else None
     tRP = s.timing.tRP
     all_bm_refresh = lambda f: And(*[state_is(f, bm.fsm, "REFRESH") for bm, L, x in BM])
-    all_twtp = lambda f: And(*[f.b(L["twtpcon"].ready) for bm, L, x in BM])
+    all_twtp = lambda f: And(*[f.b(bm.refresh_gnt) for bm, L, x in BM])     # every bank machine keeps granting
     all_seen = lambda f: And(*[f.g["b%d_seen" % i] for i in range(len(BM))])
     doing = ["DO-REFRESH"] + (["DO-ZQCS"] if "DO-ZQCS" in rfsm.encoding else [])
     c.invariant("fsm_states_in_range", lambda f: And(state_in_range(f, rfsm), state_in_range(f, mfsm)))
@@ -500,6 +502,8 @@ def ctrl_contract(cfg):
                         Or(*[f(d.ph.cs_n) == BV(((1 << nranks) - 1) ^ (1 << r), nranks) for r in range(nranks)])),
                 Implies(Or(d.ref(f), d.zqc(f), And(d.pre(f), d.a10(f))), f(d.ph.cs_n) == 0)))
     c.ensures("cke_high_all_ranks", lambda f: And(*[f(d.ph.cke) == BV((1 << nranks) - 1, nranks) for d in dec]))
+    c.parts = dict(h=h, BM=BM, dec=dec, steered=steered, prea=prea, r_ref=r_ref, r_zq=r_zq, cnt=cnt, zcnt=zcnt, rc=rc,
+                   doing=doing, steerer=steerer)
     # vacuity guards
     c.cover("dfi_activate", lambda f: Or(*[d.act(f) for d in dec]), within=40)
     c.cover("dfi_read", lambda f: Or(*[d.rd(f) for d in dec]), within=46)
